@@ -626,6 +626,7 @@ type pwTxOpt struct {
 	attrs  []transaction.Attribute
 	extra  int64 // added to the exact minimal network fee (negative allowed)
 	fixed  int64 // if != 0 the network fee
+	scopes []transaction.WitnessScope // if set: the scope of every signer (default: CalledByEntry for the sender, None for the others)
 }
 
 // tx builds a transaction of the parties (first = sender) with the exact
@@ -651,6 +652,9 @@ func (e *pwEnv) tx(parties []*pwParty, o pwTxOpt) *transaction.Transaction {
 		sc := transaction.None
 		if i == 0 {
 			sc = transaction.CalledByEntry
+		}
+		if o.scopes != nil {
+			sc = o.scopes[i]
 		}
 		t.Signers = append(t.Signers, transaction.Signer{Account: p.Hash, Scopes: sc})
 	}
